@@ -219,7 +219,8 @@ def run(tier: str) -> int:
     seen = set()
     for i, exc in sorted(rej.items()):
         cell, variant, src, mode, how, msg = meta[i]
-        sig = f"{key_of(cell)}:{exc}:{cell.get('left', cell.get('x', ''))}"
+        operands = [cell.get("left"), cell.get("x"), cell.get("y")] + list(cell.get("args") or [])
+        sig = f"{key_of(cell)}:{exc}:{'neghuge' if 'neghuge' in operands else cell.get('left', cell.get('x', ''))}"    # the >4300-digit integer, wherever it stands in the cell
         detail = {"source": src, "cell": cell, "variant": variant, "mode": mode, "how": how, "exception": exc, "message": msg}
         ck.fail(f"{exc} escapes from {key_of(cell)} ({mode}, {how}): {msg[:80]}", detail, sig=sig)
     ck.cov["observations"] = len(observations)
